@@ -1,0 +1,60 @@
+//go:build verif
+
+// verif_hooks_auth.go: accessors for the external verification harness (/verif, properties
+// C09, C10, C12: host filtering, identity squashing, ACCESS). Compiled only with -tags verif;
+// adds no behaviour to the package.
+package absnfs
+
+// VerifAuthNewHandler builds a Server and an NFSProcedureHandler around nfs without
+// listening, exactly as the package-internal tests do.
+func VerifAuthNewHandler(nfs *AbsfsNFS) (*Server, *NFSProcedureHandler) {
+	srv := &Server{handler: nfs, options: ServerOptions{Debug: false}}
+	return srv, &NFSProcedureHandler{server: srv}
+}
+
+// VerifAuthHandleFor looks path up and issues a file handle for it, as LOOKUP does.
+func (n *AbsfsNFS) VerifAuthHandleFor(path string) (uint64, error) {
+	node, err := n.Lookup(path)
+	if err != nil {
+		return 0, err
+	}
+	return n.fileMap.Allocate(node), nil
+}
+
+// VerifAuthSetOwner sets the owner and group recorded for the object behind a handle
+// (the fields GetAttr reports) and drops the object's cached attributes.
+func (n *AbsfsNFS) VerifAuthSetOwner(handle uint64, uid, gid uint32) bool {
+	f, ok := n.fileMap.Get(handle)
+	if !ok {
+		return false
+	}
+	node, ok := f.(*NFSNode)
+	if !ok {
+		return false
+	}
+	node.mu.Lock()
+	if node.attrs == nil {
+		node.attrs = &NFSAttrs{}
+	}
+	node.attrs.Uid = uid
+	node.attrs.Gid = gid
+	node.mu.Unlock()
+	n.attrCache.Invalidate(node.path)
+	return true
+}
+
+// VerifAuthIsIPAllowed is the request-time host filter of ValidateAuthentication.
+func VerifAuthIsIPAllowed(clientIP string, allowedIPs []string) bool {
+	return isIPAllowed(clientIP, allowedIPs)
+}
+
+// VerifAuthServerIsIPAllowed is the accept-time host filter of the listener.
+func (s *Server) VerifAuthServerIsIPAllowed(clientIP string) bool { return s.isIPAllowed(clientIP) }
+
+// VerifAuthApplySquashing runs applySquashing on a result preset the way
+// ValidateAuthentication presets it for AUTH_SYS.
+func VerifAuthApplySquashing(cred *AuthSysCredential, squash string) (uid, gid uint32) {
+	res := &AuthResult{Allowed: true, UID: cred.UID, GID: cred.GID}
+	applySquashing(res, cred, squash)
+	return res.UID, res.GID
+}
